@@ -150,6 +150,46 @@ class Prose(HypPart):
         return isinstance(case.get('lines'), list) and len(case['lines']) >= 1
 
 
+LETTERS = ['a', 'b', 'x', 'Z', 'Q', 'e', 'i', 'o', 'n', 't', '\u00e9', '\u00fc', '\u00df', '\u03c3', '\u0416', '\u4e2d', '\u3042', '\u05d0', '\u0639']
+DIGITS = '0123456789'
+PUNCT = list('_*-+#>=|~^$%@[]{}&<.():;,!?\'"/\\`')
+UPUNCT = ['\u2014', '\u2026', '\u00ab', '\u00bb', '\u00bf', '\u20ac', '\u201c', '\u201d', '\u2019', '\u00a7', '\u00b0', '\u2192', '\u00d7']
+
+
+def compose_token(t):
+    """1-5 atoms: letter runs, digit runs, single ASCII punctuation characters, short punctuation pairs, Unicode punctuation"""
+    out = []
+    for _ in range(1 + t.below(5)):
+        k = t.weighted([(5, 'w'), (4, 'p'), (2, 'd'), (1, 'pp'), (1, 'u')])
+        if k == 'w':
+            out.append(''.join(t.choice(LETTERS) for _ in range(1 + t.below(4))))
+        elif k == 'd':
+            out.append(''.join(t.choice(DIGITS) for _ in range(1 + t.below(3))))
+        elif k == 'p':
+            out.append(t.choice(PUNCT))
+        elif k == 'pp':
+            out.append(t.choice(PUNCT) + t.choice(PUNCT))
+        else:
+            out.append(t.choice(UPUNCT))
+    return ''.join(out)
+
+
+class Composed(Prose):
+    name = 'composed'
+    budget = {'quick': 12000, 'thorough': 600000}
+    rule = ('as "prose", but every token is composed freely from 1-5 atoms (letter runs in seven scripts, digit runs, any single ASCII '
+            'punctuation character or pair, Unicode punctuation), so that punctuation meets letters, digits and other punctuation '
+            'in every position; mixed with vocabulary tokens; same predicate, same oracle')
+
+    def expand(self, drawn):
+        t = Tape(drawn)
+        while not t.exhausted():
+            lines = []
+            for _ in range(t.weighted([(3, 1), (3, 2), (2, 3), (1, 4)])):
+                lines.append(' '.join(t.choice(VOCAB) if t.chance(64) else compose_token(t) for _ in range(1 + t.below(6))))
+            yield {'lines': lines}
+
+
 class C14(Prop):
     id = 'C14'
     rule = Prose.rule
@@ -172,7 +212,7 @@ class C14(Prop):
         return 'predicate self-test: %d live rejected, %d inert accepted' % (len(live), len(inert))
 
     def parts(self):
-        return [Prose()]
+        return [Prose(), Composed()]
 
 
 PROP = C14()
